@@ -119,7 +119,7 @@ func copyFileContent(dst, src *os.File) error {
 	return err
 }
 
-func copyXAttrs(_, _ string, _ XAttrErrorHandler) error {
+func copyXAttrs(_, _ string, _ XAttrErrorHandler, _ bool) error {
 	return nil
 }
 
